@@ -37,6 +37,36 @@ CHECKS = {
    note=TRUST + "sampled specs and sentences; environment values are always valid; group-satisfied-by-environment verdicts are unclaimed (DESIGN 3.6 iii)",
    technique="TLA+ monotonicity law checked by TLC on the reference; predictions and pair law replayed on the real code",
    design="4 (C12)"),
+ "C05": dict(level="model_checking", engine="Flow",
+   text="Flow.tla models Step.Run/callDo and the chain parse() wires as a machine with an explicit call stack; TLC explores every depth x every vector of hook outcomes (absent/returns/panics/Exit) exhaustively, checks the closed-form property (order, Afters of completed levels, last raised value decides, exit once) and termination, and every explored vector is replayed on the library (in-process with a non-returning exit stub; a sample in a child process with the real os.Exit).",
+   note=TRUST + "depth <= 2 (quick) / <= 3 (thorough); the in-process exit stub panics with a sentinel instead of exiting (a returning stub is shown by TLC to break the chain)",
+   technique="explicit TLA+ state machine of the step chain model-checked exhaustively by TLC; every TLC behaviour replayed on the real code",
+   design="4 (C05)"),
+ "C06": dict(level="model_checking", engine="Values",
+   text="Values.tla runs declaration (default, SetFromEnv over the variable list) and fillContainers (Clear once, Set per token) as a step machine on every case of the product type x role x entry point x default x environment-list pattern x command-line values; TLC checks the clean machine against the closed-form precedence rule on every case; the library executes every case and its final value must equal the prediction (with strconv's parse of each token).",
+   note=TRUST + "<= 2 (quick) / 3 (thorough) environment variables and command-line values; Dev_EnvWipesDefault is a listed finding (the machine with the switch on predicts exactly those cases)",
+   technique="explicit TLA+ step machine + closed-form invariant checked by TLC on an exhaustive case product; predictions replayed on the real code",
+   design="4 (C06)"),
+ "C13": dict(level="exploration", engine="Values",
+   text="Edge-case and random tokens are run through the library for every numeric/bool/string type, as option and argument, on the command line (alone, before and after a valid token) and via the environment; strconv's verdict on each token (computed in the harness) becomes the ok flag of a Values.tla case and TLC validates each recorded run: usage error iff a command-line token is rejected, bound value = strconv's parse, rejected environment values skipped.",
+   note=TRUST + "Go's strconv is the trusted oracle for parsing itself; the token space is sampled (curated edge list + random strings), not enumerated - TLA+ contributes the protocol around conversion, not numeric parsing",
+   technique="recorded runs of the real code validated by TLC against the Values.tla step machine (trace validation), strconv verdicts as inputs",
+   design="4 (C13), 7"),
+ "C15": dict(level="model_checking", engine="Values+RefGroups",
+   text="(1) Values.tla predicts SetByUser for one variable of every built-in type over command-line presence x environment x default; (2) for multi-variable command lines (random sentences, env-backed options omitted) the flag of every variable read inside the Action must equal 'the derivation RefSemantics.tla admits binds a token to it'.",
+   note=TRUST + "sampled specs for part (2)",
+   technique="TLA+ step machine (flag as a variable) model-checked over the case product, and reference derivations; replayed on the real code",
+   design="4 (C15)"),
+ "C18": dict(level="model_checking", engine="Decl",
+   text="Decl.tla keeps the name table over every sequence of <= 3 option declarations (name lists over {a,b,ab,ba}) and every sequence of <= 3 argument declarations over 10 candidate names; TLC enumerates all 9530 sequences and says which declarations must panic and which variable every name addresses; the library replays each sequence under recover and every accepted name is used on a command line.",
+   note=TRUST + "small name alphabet; reuse of a name that only a rejected declaration listed is unclaimed",
+   technique="explicit TLA+ model of the name table, exhaustive TLC enumeration, every behaviour replayed on the real code",
+   design="4 (C18)"),
+ "C19": dict(level="model_checking", engine="Values",
+   text="For a recording custom value type with each of the 8 combinations of IsBoolFlag/Clear/IsDefault, as option and argument, Values.tla predicts the exact sequence of Clear/Set calls in the declaration phase and in the fill phase for every environment-list pattern x command-line token sequence (accepted or rejected by Set); the calls the library actually made must equal it, a rejected token must be a usage error; bool-capable options are also exercised as bare flags inside folded clusters and option groups.",
+   note=TRUST + "<= 2/3 environment variables and tokens",
+   technique="explicit TLA+ step machine whose history variable is the call log; exhaustive case product; logs compared with the real code's calls",
+   design="4 (C19)"),
 }
 
 NA_REASON = "check not built yet (framework under construction; see DESIGN.md section 9 for the order)"
@@ -52,7 +82,10 @@ def main():
              {"name": "RefEnum", "path": "tla/RefEnum.tla tla/RefSemantics.tla tla/CmdLine.tla vlib/refenum.py harness/exec.go",
               "serves_properties": ["C01", "C02"], "kind_free_text": "TLC-enumerated cases with reference prediction, replayed on the library"},
              {"name": "RefGroups", "path": "tla/RefGroups.tla tla/RefSemantics.tla tla/CmdLine.tla vlib/groups.py props/groupcommon.py harness/exec.go",
-              "serves_properties": ["C02", "C09", "C10", "C11", "C12"], "kind_free_text": "groups of related cases: TLC validates the relation, checks the law on the reference, predicts; the library runs every member"}],
+              "serves_properties": ["C02", "C09", "C10", "C11", "C12", "C15"], "kind_free_text": "groups of related cases: TLC validates the relation, checks the law on the reference, predicts; the library runs every member"},
+             {"name": "Flow", "path": "tla/Flow.tla harness/flow.go props/c05.py", "serves_properties": ["C05"], "kind_free_text": "step-chain machine, exhaustive fault vectors"},
+             {"name": "Values", "path": "tla/Values.tla vlib/values.py harness/values.go props/valcommon.py", "serves_properties": ["C06", "C13", "C15", "C19"], "kind_free_text": "one variable from declaration to end of Run; call-log history"},
+             {"name": "Decl", "path": "tla/Decl.tla tla/MCDecl.tla harness/decl.go props/c18.py", "serves_properties": ["C18"], "kind_free_text": "name table over declaration sequences"}],
          "checks": [], "not_applicable": [],
          "notes": "All checks: ./check <id> [--tier quick|thorough]; exit 2 = machinery failure (never a verdict). Fix commits in /repo: 4e600a3 a7ec4b7 9987887 7c7116f f237444 08da7e9 0f4c4bd (see findings/known.json)."}
     for p in props:
